@@ -383,4 +383,84 @@ theorem pipeline_fixed_wf (B : Nat) (reads : List (List Byte)) (body plain : Lis
   rw [this] at h2
   exact wfFrom_of_gRun (gRun_append_some h1 h2)
 
+/-! ### `ByteSlicePool` callers -/
+
+/-- `Resize` that does not pool its argument: everything held before stays held with the same
+written prefix — in particular the argument; when it grows, the new handle holds the copy -/
+theorem bspResize_ok {g : Ghost} (ok : GhostOk g) (h len : Nat) (grow : Bool) (H : Holds g h len) :
+    ∃ g', gRun g (bspResizeProg false h g.nh len grow) = some g' ∧ GhostOk g' ∧ Pres g g' ∧
+      (grow = true → g'.nh = g.nh + 1 ∧ Holds g' g.nh len) ∧ (grow = false → g' = g) := by
+  cases grow with
+  | false =>
+    refine ⟨g, rfl, ok, ?_, ?_, ?_⟩
+    · exact fun _ _ H => H
+    · intro e; exact absurd e (by decide)
+    · intro _; rfl
+  | true =>
+    obtain ⟨g', hg', hn, Hn, p⟩ := allocCopy_ok ok h 0 len (by simpa using H)
+    refine ⟨g', by simpa [bspResizeProg] using hg', gRun_ok ok hg', p, ?_, ?_⟩
+    · intro _; exact ⟨hn, Hn⟩
+    · intro e; exact absurd e (by decide)
+
+theorem gstep_put {g : Ghost} {h : Nat} (hl : h ∈ g.live) :
+    gstep g (.put h) = some { g with live := g.live.erase h } := by simp [gstep, hl]
+
+theorem bspCaller_wf (vals more : List Byte) (grow : Bool) : wf (bspCallerProg false vals grow more) = true := by
+  have ok0 := ghostOk_init
+  obtain ⟨hp0, hn0⟩ := acquire_pres ok0
+  have hget : gstep Ghost.init .get = some ⟨Ghost.init.nh + 1, Ghost.init.nh :: Ghost.init.live, upd Ghost.init.wr Ghost.init.nh 0⟩ := rfl
+  have ok1 : GhostOk ⟨Ghost.init.nh + 1, Ghost.init.nh :: Ghost.init.live, upd Ghost.init.wr Ghost.init.nh 0⟩ := gshape_ok (GShape.get) ok0
+  have h0 : Ghost.init.nh = 0 := rfl
+  rw [h0] at hn0 hget ok1
+  obtain ⟨g2, hg2, e2, H2⟩ := gstep_write vals hn0
+  have ok2 : GhostOk g2 := gshape_ok (gstep_shape hg2) ok1
+  have nh2 : g2.nh = 1 := e2.nh
+  cases grow with
+  | false =>
+    obtain ⟨g3, hg3, ok3, p3, hgrow, hsame⟩ := bspResize_ok ok2 0 vals.length false (by simpa using H2)
+    have e3 : g3 = g2 := hsame rfl
+    subst e3
+    have H03 : Holds g3 0 vals.length := by simpa using H2
+    obtain ⟨g4, hg4, e4, H4⟩ := gstep_write more H03
+    have u1 : gstep g4 (.use ⟨0, 0, vals.length + more.length⟩) = some g4 := gstep_use (by simpa using H4)
+    have u2 : gstep g4 (.use ⟨0, 0, vals.length⟩) = some g4 := gstep_use (H4.mono (by simp only; omega))
+    have hp : gstep g4 (.put 0) = some _ := gstep_put H4.1
+    refine wfFrom_of_gRun (g := Ghost.init) (g' := { g4 with live := g4.live.erase 0 }) ?_
+    unfold bspCallerProg
+    simp only [bspResizeProg, Bool.false_eq_true, if_false, List.append_nil, List.cons_append, List.nil_append]
+    rw [gRun_cons hget, gRun_cons hg2, gRun_cons hg4, gRun_cons u1, gRun_cons u2, gRun_cons hp]
+    rfl
+  | true =>
+    obtain ⟨g3, hg3, ok3, p3, hgrow, hsame⟩ := bspResize_ok ok2 0 vals.length true (by simpa using H2)
+    rw [nh2] at hg3 hgrow
+    have H03 : Holds g3 0 vals.length := p3 _ _ (by simpa using H2)
+    obtain ⟨hn3, H13⟩ := hgrow rfl
+    obtain ⟨g4, hg4, e4, H4⟩ := gstep_write more H13
+    have u1 : gstep g4 (.use ⟨1, 0, vals.length + more.length⟩) = some g4 := gstep_use (by simpa using H4)
+    have u2 : gstep g4 (.use ⟨0, 0, vals.length⟩) = some g4 := gstep_use ((e4.holds H03).mono (by simp only; omega))
+    have hp0' : gstep g4 (.put 0) = some _ := gstep_put (e4.holds H03).1
+    have hp1 : gstep { g4 with live := g4.live.erase 0 } (.put 1) = some _ :=
+      gstep_put (show 1 ∈ g4.live.erase 0 from (List.mem_erase_of_ne (by decide)).mpr H4.1)
+    have hmid : gRun g2 ([Instr.alloc vals.length, .copy ⟨1, 0, vals.length⟩ ⟨0, 0, vals.length⟩]) = some g3 := by
+      simpa [bspResizeProg] using hg3
+    have htail : gRun g3 [Instr.write 1 vals.length more, .use ⟨1, 0, vals.length + more.length⟩, .use ⟨0, 0, vals.length⟩, .put 0, .put 1]
+        = some { g4 with live := (g4.live.erase 0).erase 1 } := by
+      rw [gRun_cons hg4, gRun_cons u1, gRun_cons u2, gRun_cons hp0', gRun_cons hp1]
+      rfl
+    refine wfFrom_of_gRun (g := Ghost.init) (g' := { g4 with live := (g4.live.erase 0).erase 1 }) ?_
+    unfold bspCallerProg
+    simp only [bspResizeProg, if_true, Bool.false_eq_true, if_false, List.append_nil, List.cons_append, List.nil_append]
+    rw [gRun_cons hget, gRun_cons hg2]
+    exact gRun_append_some hmid htail
+
+theorem bspUser_wf (vals : List Byte) : wf (bspUserProg vals) = true := by
+  have hget : gstep Ghost.init .get = some ⟨1, [0], upd Ghost.init.wr 0 0⟩ := rfl
+  have hn0 : Holds ⟨1, [0], upd Ghost.init.wr 0 0⟩ 0 0 := by simp [Holds]
+  obtain ⟨g2, hg2, e2, H2⟩ := gstep_write vals hn0
+  have u : gstep g2 (.use ⟨0, 0, vals.length⟩) = some g2 := gstep_use (by simpa using H2)
+  apply wfFrom_of_gRun (g := Ghost.init)
+  unfold bspUserProg
+  rw [gRun_cons hget, gRun_cons hg2, gRun_cons (show gstep g2 .yield = some g2 from rfl), gRun_cons u, gRun_cons (gstep_put H2.1)]
+  rfl
+
 end Kit.PoolOwn
